@@ -38,4 +38,13 @@ CLAIMS['C12'] = {
             '(simple, salted, and iterated with 10..64-octet units and counts 1024..2176) and that the key is the digests in order, truncated. Bounded model checking.',
     'note': 'Trusted: the recording hash (digest = function of length and 12 edge octets; inputs are compared directly as well), CrossHair, shim S8 (bytes*int as flat repetition), the RFC model spec_streams(). '
             'Not decided: the hash functions; content for passphrases longer than the stated bounds (arithmetic covers every length). One genuine defect repaired (fix: 73fc9f5).'}
+CLAIMS['C10'] = {
+    'technique': 'SMT translation of the CRC-24 loop body (inductive step over all 2^32 state/octet pairs, bit-vectors, 3 solvers) and of the wrap expression (unbounded length); bounded symbolic execution for CRC line and labels',
+    'enginea': True,
+    'text': 'O10.1: the per-octet loop body, the initial value and the final mask are cut out of the current crc24 source, translated to 32-bit bit-vector terms with no-overflow side obligations, '
+            'and shown equal to an independently formulated RFC 4880 6.1 LFSR step for every 24-bit state and octet (unsat); with the base case this gives the CRC for payloads of every length by induction. '
+            'O10.3: the slice bounds and range step of the wrap expression in __str__ are translated and shown to tile a payload of any length into lines of 1..76 characters. '
+            'O10.2 (three-octet CRC line over all 2^24 values) and O10.4 (label emitted per object kind; every foreign label rejected by parse) are decided on the real code with CrossHair.',
+    'note': 'NOT decided here (regular expressions on symbolic text are outside this tool, probe P14): armored text -> object round trip, CRLF / surrounding text, armor header lines, the CRC-mismatch warning; base64 is C code. '
+            'The claim is therefore the checksum, the line geometry and the label discipline, not the whole envelope.'}
 NOT_APPLICABLE = {p: NB for p in ['C%02d' % i for i in range(1, 21)] if p not in CLAIMS}
